@@ -194,6 +194,15 @@ def _standard_form(g, fails, site, ctx):
             bad("index-out-of-range", f"face {i}: {row.tolist()} with n_node {n_node}")
             ok = False
             break
+    if ok:
+        try:
+            npf = np.asarray(g.n_nodes_per_face.values)
+            if npf.shape != (conn.shape[0],) or not np.array_equal(npf, (conn != FILL).sum(axis=1)):
+                bad("n_nodes_per_face", f"n_nodes_per_face {npf.tolist()[:8]} but the rows have {(conn != FILL).sum(axis=1).tolist()[:8]} corners")
+                ok = False
+        except Exception as e:  # noqa
+            bad("n_nodes_per_face-unavailable", repr(e)[:200])
+            ok = False
     if ok and np.any(conn == FILL):
         fv = da.attrs.get("_FillValue", None)
         if fv is None or int(fv) != FILL:
@@ -359,9 +368,12 @@ def run_case(case, ctx):
             # dual faces: one per primal vertex with >= 3 cells, corners = cell centres in ring order
             expected = [[tuple(winfo["xyz_c"][c]) for c in ring] for ring in winfo["rings"]]
             node_pos = winfo["xyz_c"]
-            info = {"xyz_c": winfo["xyz_v"], "areas": winfo["area_t"]}
+            # on the dual an edge joins the two cells on either side of the primal edge and separates its two vertices
+            info = {"xyz_c": winfo["xyz_v"], "areas": winfo["area_t"], "edge_nodes": winfo["edge_cells"], "edge_faces": winfo["edge_nodes"], "xyz_e": winfo["xyz_e"]}
         else:
-            info = {"xyz_c": winfo["xyz_c"], "areas": winfo["area_c"]}
+            info = {"xyz_c": winfo["xyz_c"], "areas": winfo["area_c"], "edge_nodes": winfo["edge_nodes"], "edge_faces": winfo["edge_cells"], "xyz_e": winfo["xyz_e"]}
+        if coords == "xyz":
+            info.pop("xyz_e")  # edge lon/lat are then derived, which C04 judges
     elif fmt == "scrip":
         ds, info = writers.scrip_dataset(mesh, d)
         g = _open(ux, ds, case, ctx)
@@ -468,7 +480,7 @@ def run_case(case, ctx):
         _centres_carried(g, info["xyz_c"], fails, site, ctx, "face")
     if "xyz_e" in info:
         _centres_carried(g, info["xyz_e"], fails, site, ctx, "edge")
-    if fmt in ("ugrid", "icon") and node_pos is not None:
+    if fmt in ("ugrid", "icon", "mpas", "mpas-dual") and node_pos is not None:
         _conn_carried(g, info, node_pos, fails, site, ctx)
     if "areas" in info and fmt in ("mpas", "mpas-dual", "scrip"):
         ctx.ev("carried_over")
